@@ -40,7 +40,7 @@ var ProcessorStartRegex = regexp.MustCompile(`^##!>\s*([a-z]+)(?:\s+([a-z]+))?`)
 // ProcessorBlockStartRegex matches any processor start line, where the processor has a body
 // (##! assemble, ##! cmdline <value>).
 // The name is captured in group 1, the optional value is captured in group 2.
-var ProcessorBlockStartRegex = regexp.MustCompile(`^##!>\s*(assemble|cmdline)\s*(\S+)?`)
+var ProcessorBlockStartRegex = regexp.MustCompile(`^##!>\s*(assemble|cmdline)(?:\s+(.*\S))?\s*$`)
 
 // ProcessorEndRegex matches a processor end line (##!<)
 var ProcessorEndRegex = regexp.MustCompile(`^##!<`)
